@@ -6,6 +6,7 @@ import (
 	"sort"
 	"strings"
 	"sync"
+	"time"
 
 	"github.com/confluentinc/confluent-kafka-go/kafka"
 
@@ -112,10 +113,11 @@ func fmtTPs(p []kafka.TopicPartition, sorted bool) string {
 
 // recordingContext implements fbcontext.FBContext and records every message sent or acked.
 type recordingContext struct {
-	mu      sync.Mutex
-	sent    []fbcontext.Message
-	acked   []fbcontext.Message
-	sendErr bool
+	mu        sync.Mutex
+	sent      []fbcontext.Message
+	acked     []fbcontext.Message
+	sendErr   bool
+	stallNext bool // the next SendMessage stalls for up to 10 ms (or until another send has been recorded)
 }
 
 func (c *recordingContext) ConfigureMessaging(send fbcontext.MessageFunc, ack fbcontext.MessageFunc) {
@@ -123,6 +125,21 @@ func (c *recordingContext) ConfigureMessaging(send fbcontext.MessageFunc, ack fb
 func (c *recordingContext) ConfigureLeader(leader func() bool) {}
 func (c *recordingContext) SendMessage(msg fbcontext.Message) error {
 	c.mu.Lock()
+	if c.stallNext {
+		// this send stalls in the transport: if another send gets through meanwhile, it is delivered first
+		c.stallNext = false
+		before := len(c.sent)
+		c.mu.Unlock()
+		for t0 := time.Now(); time.Since(t0) < 10*time.Millisecond; time.Sleep(200 * time.Microsecond) {
+			c.mu.Lock()
+			overtaken := len(c.sent) > before
+			c.mu.Unlock()
+			if overtaken {
+				break
+			}
+		}
+		c.mu.Lock()
+	}
 	defer c.mu.Unlock()
 	cp := msg
 	cp.Payload = append([]byte(nil), msg.Payload...)
